@@ -107,7 +107,7 @@ TERMS = ["pandas", "awkward", "root", "parquet"]
 FAULT_KINDS = [
     "exec_error", "stall_cancel", "cancel", "timeout", "sync_in_loop", "derive_fail",
     "shared_ast", "typed", "unbind", "nontransportable", "touch", "override", "dup_exec",
-    "threads",
+    "threads", "capture_fault",
 ]
 
 SAMPLES = [
@@ -152,8 +152,15 @@ def _wchoice(rng, weights: dict):
     return items[-1][0]
 
 
-def gen_site(rng):
+def gen_site(rng, boom_ok=False):
     "One client call site: operator, lambda text, and the names it truly captures."
+    if boom_ok and rng.random() < 0.12:
+        # a "crash" in the middle of the capture step: resolving BOOM.val raises.  The lambda's
+        # parameter is often named like a captured variable (state left behind would show there)
+        e = rng.choice(["e", "G0", "c0", "c1", "G1", "K0"])
+        body = rng.choice([f"{e}.a + BOOM.val", f"{e}.jets.Select(lambda j: j.pt + BOOM.val)",
+                           f"{e}.jets.Select(lambda G0: G0.pt + BOOM.val)"])
+        return {"op": "Select", "lam": f"lambda {e}: {body}", "free": [], "shadow": e, "boom": True}
     free = []
     binders = {"e": "e", "j": "j", "k": "k"}
     shadow = None
@@ -274,7 +281,7 @@ def generate(prop: str, seed: int, tier: str = "quick", fault_free: bool = False
                 for _ in range(n_ds)]
     catalog = list(UNTYPED) + (list(TYPED) if any(d["typed"] >= 0 for d in datasets) else [])
     pool = [list(c.choice(catalog)) for _ in range(c.randint(3, 8))]
-    sites = [gen_site(c) for _ in range(c.randint(2, 8))]
+    sites = [gen_site(c, boom_ok="capture_fault" in faults) for _ in range(c.randint(2, 8))]
     config = {
         "n_datasets": n_ds,
         "datasets": datasets,
@@ -825,6 +832,15 @@ class Forest:
             self.stat("site_parent_replaced_by_root")
         blocked = c.blocked_by(k)
         site_fn, ref_fn = c.fns[k][0], c.fns[k][1]
+        if site.get("boom"):
+            new, ex = self.builder(lambda: site_fn(parent.stream))
+            self.stat("fault_capture_step_raised")
+            self.ev("site_boom", k, type(ex).__name__ if ex else "none")
+            if ex is None and "C04" in self.oracles:
+                raise Violation("C04/gate", {"site": site["lam"], "got": "no exception",
+                                             "what": "captured object whose attribute raises"})
+            self.last_op = "failed-derive"
+            return
         refs = None
         if "C04" in self.oracles and not blocked:
             rf = ref_fn()
